@@ -86,3 +86,20 @@ Theorem C02_fragments_join_keeps_nesting :
   forall tokens d level carry, InlineNest.nested d tokens -> InlineNest.nested d (fj tokens level carry).
 Proof. exact InlineNest.fj_nested. Qed.
 Print Assumptions C02_fragments_join_keeps_nesting.
+
+(* ---- a syntax tree can be built ------------------------------------------------------------------ *)
+From MD Require Import Model.Tree Lemmas.BlockKinds Lemmas.TreeBuild.
+
+(* on every balanced stream of tokens without children the tree builder (SyntaxTreeNode: find the
+   closing token by counting nesting) returns a tree, and the tree flattens back to the stream *)
+Theorem C02_balanced_stream_builds :
+  forall d ts, bal d ts -> Forall childless ts -> exists n, build ts = Ok n /\ to_tokens n = ts.
+Proof. exact build_bal. Qed.
+Print Assumptions C02_balanced_stream_builds.
+
+(* what ParserBlock.parse returns is such a stream - for every source, env and configuration *)
+Theorem C02_block_stream_tree_constructible :
+  forall cfg rf cf, chains_sub cfg -> forall src env st,
+  block_parse cfg rf cf src env [] = Ok st -> exists n, build (b_tokens st) = Ok n /\ to_tokens n = b_tokens st.
+Proof. exact block_parse_tree. Qed.
+Print Assumptions C02_block_stream_tree_constructible.
